@@ -495,6 +495,8 @@ func c20Run(c *Ctx, cs c20Case) (res c20Result) {
 		var last c20Start
 		var r Val
 		okAt := time.Time{}
+		starved := false
+		t0 := time.Now()
 		dl := time.Now().Add(time.Duration((ck.P1+ck.P2)*1000)*time.Millisecond + 10*time.Second)
 		for {
 			starts := c20ReadLog(s)
@@ -510,6 +512,12 @@ func c20Run(c *Ctx, cs c20Case) (res c20Result) {
 			seen, height, top = c20Pane(vt, last.ID, last.N)
 			r = c.Model.Call(2005, L(I(sc.sum(target)), I(sc.Denom), I(height), I(sc.Headers), I(ck.Total), Ints(seen)))
 			good := r.IsList && len(r.L) == 4 && r.L[3].I == 1 && (ck.Hang || last.Ended)
+			// shape of known finding c20-offset-gate-starves-short-output: a never-ending command that prints no more lines
+			// than the requested offset; fzf renders nothing of it however long one waits, so the wait is cut short
+			starved = ck.Hang && r.IsList && len(r.L) == 4 && int64(ck.Total) <= r.L[0].I
+			if starved && !good && time.Since(t0) > time.Duration((ck.P1+ck.P2)*1000)*time.Millisecond+3*time.Second {
+				break
+			}
 			if good {
 				// the content must stay: two more render ticks
 				if okAt.IsZero() {
@@ -553,7 +561,7 @@ func c20Run(c *Ctx, cs c20Case) (res c20Result) {
 				sched = append(sched, L(I(2), I(1)))
 			}
 			sched = append(sched, L(I(3), I(1)))
-			mv := c.Model.Call(2006, L(I(req), I(sc.Headers), I(0), L(sched...)))
+			mv := c.Model.Call(2006, L(I(req), I(sc.Headers), I(0), L(sched...), I(2)))
 			hdrRows := 0
 			if sc.Headers > 0 && sc.Headers < ck.Total && sc.Headers < height {
 				hdrRows = sc.Headers
@@ -573,10 +581,17 @@ func c20Run(c *Ctx, cs c20Case) (res c20Result) {
 			f := &c20Finding{Kind: "spec", Name: "shows_requested_part", Liveness: true,
 				Impl:   fmt.Sprintf("%s: window of %d rows shows lines %v (first row %q) of command %s", where, height, seen, top, last.String()),
 				Expect: fmt.Sprintf("scroll %s on %d lines: offset %d, lines %s", sc.spec(), ck.Total, r.L[1].I, r.L[2].String())}
-			// known finding c20-scroll-edge: a chunk of the output ends exactly at the requested offset, the window is
-			// one line short
-			if req > 0 && (ck.C1 == req || ck.C2 == req) && len(seen) > 0 {
-				f.Known = "c20-scroll-edge"
+			// known finding c20-offset-gate-starves-short-output, narrow: the command never ends, it has printed no more
+			// lines than the requested offset, and no row of the window belongs to it (the window still holds the previous
+			// command's output, or nothing when there was none)
+			own := 0
+			for _, k := range seen {
+				if k > 0 {
+					own++
+				}
+			}
+			if starved && own == 0 {
+				f.Known = "c20-offset-gate-starves-short-output"
 			}
 			return f
 		}
@@ -1200,6 +1215,24 @@ func c20WinCase(r *RNG, i int) c20Case {
 	return cs
 }
 
+// c20StarvedCase: the shape of known finding c20-offset-gate-starves-short-output: a never-ending command whose output
+// (20-60 lines) is shorter than the offset requested for some of the items (targets 80, 120, 95, 150 ...) and longer
+// for others (7, 1, 12), so that both the finding and the working case are seen in one session.
+func c20StarvedCase(r *RNG, i int) c20Case {
+	sc := c20Scroll{Field: true}
+	if i%2 == 1 {
+		sc.Add = -Pick(r, []int{3, 5})
+	}
+	ck := c20Chunk{Total: Pick(r, []int{20, 40, 60}), Hang: true, C1: Pick(r, []int{1, 5, 10}), P1: Pick(r, []float64{0.0, 0.35})}
+	ck.C2 = ck.C1
+	cs := c20Case{Stream: "starved", Kind: ck.kind(), Tmpl: 2, Exit: Pick(r, []string{"accept", "abort", "sigterm"}), ExitUs: -1,
+		Win: Pick(r, []string{"right,50%", "left,50%"}), Scroll: &sc}
+	for k := 0; k < 2; k++ {
+		cs.Steps = append(cs.Steps, c20Step{A: "up", P: Pick(r, []int{20, 80}), C: true})
+	}
+	return cs
+}
+
 // c20ScrollCase: a scroll offset in --preview-window and a command whose numbered output arrives in chunks (some lines,
 // a pause of several render ticks, more lines, ... then the end or a hang): after each move the window must show the
 // requested part of the output of the command for the focused line.
@@ -1222,8 +1255,9 @@ func c20ScrollCase(r *RNG, i int) c20Case {
 	}
 	ck := c20Chunk{Total: Pick(r, []int{100, 160, 200}), Hang: r.Chance(1, 4)}
 	if ck.Hang {
-		// a never-ending command is rendered only once it has printed as many lines as the requested offset (the
-		// largest one here is 153): an output that stays shorter is never shown at all (reported; not generated)
+		// a never-ending command is rendered only once it has printed more lines than the requested offset (the
+		// largest one here is 153): an output that stays shorter is never shown at all (known finding
+		// c20-offset-gate-starves-short-output; generated separately by c20StarvedCase)
 		ck.Total = 200
 	}
 	ck.C1 = Pick(r, []int{1, 2, 5, 5, 10, 25, 40, 70})
@@ -1281,7 +1315,7 @@ func c20SelInPlace(r *RNG, i int) c20Case {
 }
 
 func runC20(c *Ctx) {
-	c.Rep.Rule = "pty sessions with a logging preview command (instant / 50 ms / 6 s / never ending, silent or printing; templates with and without {q} and {+n}); random histories of up/down/toggle/typing/backspace/refresh-preview/change-preview/toggle-preview with pauses 0-80 ms and back-to-back groups; dedicated streams: two moves 0.3-1 ms apart, session end with a live / just superseded preview, selection toggled off/on without moving the cursor under a {+n} template, the window hidden (change-preview-window(hidden) / toggle-preview / hide-preview / hidden from the start) and brought back (change-preview-window with a layout / toggle-preview / show-preview) with moves, selections and typing in between, a scroll offset (+{2}-/2, +{2}-5, ~3,+{2}+3-/2, +N ...) with numbered output arriving in chunks separated by pauses of 0.35-0.6 s (window content read off an interpreted screen), one batched action list; non-trivial = at least 3 commands started and 4 model labels (dedicated streams always); distinct by JSON of the case"
+	c.Rep.Rule = "pty sessions with a logging preview command (instant / 50 ms / 6 s / never ending, silent or printing; templates with and without {q} and {+n}); random histories of up/down/toggle/typing/backspace/refresh-preview/change-preview/toggle-preview with pauses 0-80 ms and back-to-back groups; dedicated streams: two moves 0.3-1 ms apart, session end with a live / just superseded preview, selection toggled off/on without moving the cursor under a {+n} template, the window hidden (change-preview-window(hidden) / toggle-preview / hide-preview / hidden from the start) and brought back (change-preview-window with a layout / toggle-preview / show-preview) with moves, selections and typing in between, a scroll offset (+{2}-/2, +{2}-5, ~3,+{2}+3-/2, +N ...) with numbered output arriving in chunks separated by pauses of 0.35-0.6 s (window content read off an interpreted screen), never-ending output shorter than the requested offset (known finding), one batched action list; non-trivial = at least 3 commands started and 4 model labels (dedicated streams always); distinct by JSON of the case"
 	if c.Replay != "" {
 		var cs c20Case
 		b, err := os.ReadFile(c.Replay)
@@ -1350,6 +1384,10 @@ func runC20(c *Ctx) {
 	// scroll offset of the request and output that arrives in chunks
 	for i, n := 0, c.N(10, 80); i < n; i++ {
 		cases = append(cases, c20ScrollCase(r, i))
+	}
+	// never-ending output shorter than the requested offset (known: c20-offset-gate-starves-short-output)
+	for i, n := 0, c.N(2, 12); i < n; i++ {
+		cases = append(cases, c20StarvedCase(r, i))
 	}
 	// one batched action list (known: c20-batched-refresh)
 	cases = append(cases, c20Case{Stream: "batch", Kind: "instant", Tmpl: 0, Batch: "up+refresh-preview+down", Exit: "abort", ExitUs: -1,
